@@ -113,8 +113,24 @@ func rolandParseClass(bt []byte) (cls string, val *sysex.Manufacturer) {
 	if val == nil {
 		return "ok:nil", nil
 	}
-	return "ok:" + showManuGo(val), val
+	shown := showManuGo(val)
+	// the caller writes into what Parse returned; parsing the same bytes again must give the same value
+	shown2 := ""
+	scribbled(val.SendingData, func() []byte {
+		try(func() {
+			if val2, _ := sysex.Parse(append([]byte(nil), bt...)); val2 != nil {
+				shown2 = showManuGo(val2)
+			}
+		})
+		return nil
+	})
+	if shown2 != shown {
+		c18Isolation = "after the caller overwrote the payload of a parsed message, parsing the same bytes again gives another value (the result shares memory with the library): " + hx(bt)
+	}
+	return "ok:" + shown, val
 }
+
+var c18Isolation string
 
 // ---------- generators ----------
 
@@ -295,6 +311,10 @@ func genC18(r *Rng, tier string, emit func(Case)) {
 	}
 	emit(Case{Op: "roland.cksrep addr=000000 b=0 n=0", Tags: []string{"roland:cksrep-small"}, NonTrivial: true})
 	emit(Case{Op: "roland.cksrep addr=400000 b=64 n=1000", Tags: []string{"roland:cksrep-small"}, NonTrivial: true})
+	// the messages the package itself exports as values (GM reset), parsed twice in a row
+	for k := 0; k < 2; k++ {
+		emit(Case{Op: "roland.parse " + hx(sysex.GMReset.SysEx()), Tags: []string{"roland:parse", "roland:exported-value"}, NonTrivial: true})
+	}
 	// malformed stream
 	for i := 0; i < nMal; i++ {
 		base := pool[r.Intn(len(pool))]
@@ -505,6 +525,10 @@ func mutateFixed(r *Rng, base []byte) ([]byte, string) {
 
 func runC18(c Case, m *Model) (v Verdict) {
 	v = runC18Op(c, m)
+	if c18Isolation != "" {
+		v.Oracle = append(v.Oracle, c18Isolation)
+		c18Isolation = ""
+	}
 	if msg := retainCheck(); msg != "" {
 		v.Oracle = append(v.Oracle, msg+" (building / parsing one message must not disturb another)")
 	}
@@ -722,6 +746,9 @@ func runRolandBuild(c Case, m *Model, f map[string]string) (v Verdict) {
 		return
 	}
 	retain("sysex Manufacturer.SysEx", w)
+	if w2 := scribbled(w, func() []byte { return s.SysEx() }); string(w2) != string(w) {
+		v.Oracle = append(v.Oracle, "after the caller overwrote the returned message, SysEx() of the same value returns "+short(hx(w2))+" instead of "+short(hx(w)))
+	}
 	if mf["w"] != hx(w) {
 		v.Mismatch = append(v.Mismatch, "SysEx bytes: model "+short(mf["w"])+" impl "+short(hx(w)))
 	}
